@@ -471,6 +471,17 @@ where
             vm.inner_mut().set_cycles(0);
             (id, result, cycles)
         };
+        #[cfg(feature = "verif-hooks")]
+        verif_hook::push(|| {
+            let kind = match &result {
+                Ok(code) => format!("exit:{code}"),
+                Err(Error::Yield) => "yield".to_string(),
+                Err(Error::CyclesExceeded) => "exceeded".to_string(),
+                Err(Error::Pause) => "pause".to_string(),
+                Err(_) => "err".to_string(),
+            };
+            format!("run {id} {cycles} {kind}")
+        });
         self.iteration_cycles = self
             .iteration_cycles
             .checked_add(cycles)
@@ -482,6 +493,8 @@ where
     fn process_message_box(&mut self) -> Result<(), Error> {
         let messages: Vec<Message> = self.message_box.lock().expect("lock").drain(..).collect();
         for message in messages {
+            #[cfg(feature = "verif-hooks")]
+            verif_hook::push(|| verif_hook::message(&message));
             match message {
                 Message::ExecV2(vm_id, args) => {
                     let (old_context, old_machine) = self
@@ -748,6 +761,8 @@ where
                 }
             }
         });
+        #[cfg(feature = "verif-hooks")]
+        verif_hook::push(|| format!("io-scan {} {}", closed_fds.len(), pairs.len()));
         // Finish read / write syscalls for fds that are closed on the other end
         for vm_id in closed_fds {
             match self.states[&vm_id].clone() {
@@ -801,6 +816,8 @@ where
                 let fillable = read_length;
                 let consumable = write_length - consumed;
                 let copiable = std::cmp::min(fillable, consumable);
+                #[cfg(feature = "verif-hooks")]
+                verif_hook::push(|| format!("io {read_vm_id} {write_vm_id} {copiable}"));
 
                 // Actual data copying
                 let (_, write_machine) = self
@@ -945,6 +962,8 @@ where
         if !self.suspended.contains_key(id) {
             return Err(Error::Unexpected(format!("VM {:?} is not suspended!", id)));
         }
+        #[cfg(feature = "verif-hooks")]
+        verif_hook::push(|| format!("rv {id}"));
         let snapshot = &self.suspended[id];
         self.iteration_cycles = self
             .iteration_cycles
@@ -968,6 +987,8 @@ where
                 id
             )));
         }
+        #[cfg(feature = "verif-hooks")]
+        verif_hook::push(|| format!("sv {id}"));
         self.iteration_cycles = self
             .iteration_cycles
             .checked_add(SPAWN_EXTRA_CYCLES_BASE)
@@ -1110,5 +1131,63 @@ where
 
     fn u64_to_reg(v: u64) -> <M::Inner as CoreMachine>::REG {
         <M::Inner as CoreMachine>::REG::from_u64(v)
+    }
+}
+
+/// verif-hooks: a thread-local, opt-in trace of the scheduler's bookkeeping decisions (read-only:
+/// nothing here is consulted by the scheduler). Lines: `run <vm> <cycles> <exit:code|yield|exceeded|pause|err>`
+/// (outcome of one VM run in `iterate_inner`), `m <kind> <vm> …` (a message taken from the message
+/// box), `sv <vm>` / `rv <vm>` (`suspend_vm` / `resume_vm`), `io-scan <closed> <pairs>` and
+/// `io <reader> <writer> <bytes>` (`process_io`).
+#[cfg(feature = "verif-hooks")]
+pub mod verif_hook {
+    use crate::types::Message;
+    use std::cell::RefCell;
+
+    thread_local! {
+        static TRACE: RefCell<Option<Vec<String>>> = const { RefCell::new(None) };
+    }
+
+    /// start (or restart) recording on this thread
+    pub fn start() {
+        TRACE.with(|t| *t.borrow_mut() = Some(Vec::new()));
+    }
+
+    /// the lines recorded since the last `start` / `drain`; recording goes on
+    pub fn drain() -> Vec<String> {
+        TRACE.with(|t| t.borrow_mut().as_mut().map(std::mem::take).unwrap_or_default())
+    }
+
+    /// stop recording
+    pub fn stop() {
+        TRACE.with(|t| *t.borrow_mut() = None);
+    }
+
+    pub(crate) fn push<F: FnOnce() -> String>(f: F) {
+        TRACE.with(|t| {
+            if let Some(v) = t.borrow_mut().as_mut() {
+                v.push(f());
+            }
+        });
+    }
+
+    pub(crate) fn message(m: &Message) -> String {
+        let fds = |v: &[crate::types::Fd]| {
+            if v.is_empty() {
+                "-".to_string()
+            } else {
+                v.iter().map(|f| f.0.to_string()).collect::<Vec<_>>().join(",")
+            }
+        };
+        match m {
+            Message::ExecV2(vm, _) => format!("m exec {vm}"),
+            Message::Spawn(vm, a) => format!("m spawn {vm} {}", fds(&a.fds)),
+            Message::Wait(vm, a) => format!("m wait {vm} {}", a.target_id),
+            Message::Pipe(vm, _) => format!("m pipe {vm}"),
+            Message::FdRead(vm, a) => format!("m read {vm} {} {}", a.fd.0, a.length),
+            Message::FdWrite(vm, a) => format!("m write {vm} {} {}", a.fd.0, a.length),
+            Message::InheritedFileDescriptor(vm, _) => format!("m inh {vm}"),
+            Message::Close(vm, fd) => format!("m close {vm} {}", fd.0),
+        }
     }
 }
